@@ -12,16 +12,17 @@ Section HKDF.
   Variables (alg : string) (prk info : list Z).
 
   Let T := hkdf_T Orc alg prk info.
-  Let acc (j : nat) : list Z := List.concat (map T (seq 0 j)).
+  Let okm (j : nat) : list Z := hkdf_okm Orc alg prk info j.
 
-  Let body := (fun '(T0, Titer) x =>
-      let T0 := T0 ++ Titer in
+  Let body := (fun '(Titer, T0) x =>
       t4_ <- mk_bytes [x] ;;
       let Titer := o_hmac Orc alg prk ((Titer ++ info) ++ t4_) in
-      Ok (T0, Titer)).
+      let T0 := T0 ++ Titer in
+      Ok (Titer, T0)).
 
+  (* after m iterations: Titer = T(m), T = T(1) | ... | T(m) *)
   Lemma hkdf_loop (m : nat) : (m <= 255)%nat ->
-    foldM body (zrange 1 (Z.of_nat m + 1)) ([], []) = Ok (acc m, T m).
+    foldM body (zrange 1 (Z.of_nat m + 1)) ([], []) = Ok (T m, okm m).
   Proof.
     induction m as [|m IH]; intros Hm.
     - reflexivity.
@@ -29,27 +30,19 @@ Section HKDF.
       rewrite zrange_snoc by lia. rewrite foldM_app, IH by lia. rewrite bind_ok.
       cbn [foldM]. unfold body at 1. unfold mk_bytes, all_bytes. cbn [forallb].
       replace (is_byte (Z.of_nat m + 1)) with true by (symmetry; unfold is_byte; lia).
-      cbn [andb]. rewrite !bind_ok. f_equal. f_equal.
-      + unfold acc. rewrite seq_snoc, map_app, concat_app. cbn [map List.concat plus]. rewrite app_nil_r. reflexivity.
-      + unfold T. cbn [hkdf_T]. rewrite <- app_assoc. do 4 f_equal. lia.
+      cbn [andb]. rewrite !bind_ok.
+      assert (ET : o_hmac Orc alg prk ((T m ++ info) ++ [Z.of_nat m + 1]) = T (S m)).
+      { unfold T. cbn [hkdf_T]. rewrite <- app_assoc. do 4 f_equal. lia. }
+      rewrite ET. f_equal. f_equal.
+      unfold okm, hkdf_okm. rewrite seq_snoc, map_app, concat_app. cbn [map List.concat plus]. rewrite app_nil_r. reflexivity.
   Qed.
 
-  (* the 256th block needs the counter byte 256 *)
-  Lemma hkdf_loop_256 :
-    foldM body (zrange 1 (Z.of_nat 256 + 1)) ([], []) = Err ValueError.
-  Proof.
-    replace (Z.of_nat 256 + 1) with (Z.of_nat 255 + 1 + 1) by lia.
-    rewrite zrange_snoc by lia. rewrite foldM_app, hkdf_loop by lia. rewrite bind_ok.
-    reflexivity.
-  Qed.
+  (* a 256th block would need the counter byte 256 *)
+  Lemma hkdf_loop_256 (rest : list Z) :
+    foldM body (zrange 1 (Z.of_nat 255 + 1) ++ 256 :: rest) ([], []) = Err ValueError.
+  Proof. rewrite foldM_app, hkdf_loop by lia. rewrite bind_ok. reflexivity. Qed.
 
-  Lemma acc_okm n : acc (S n) = hkdf_okm Orc alg prk info n.
-  Proof.
-    unfold acc, hkdf_okm. change (seq 0 (S n)) with (0%nat :: seq 1 n). cbn [map List.concat].
-    reflexivity.
-  Qed.
-
-  Lemma HKDF_expand_ok hl L : digest_size alg = Some hl -> 0 < hl -> 0 <= L <= 254 * hl ->
+  Lemma HKDF_expand_ok hl L : digest_size alg = Some hl -> 0 < hl -> 0 <= L <= 255 * hl ->
     HKDF_expand Orc prk info L alg =
     Ok (firstn (Z.to_nat L) (hkdf_okm Orc alg prk info (Z.to_nat ((L + hl - 1) / hl)))).
   Proof.
@@ -57,62 +50,52 @@ Section HKDF.
     unfold divceil, py_divmod. destruct (hl =? 0) eqn:E; [lia|]. rewrite !bind_ok.
     rewrite divceil_pos_val by lia.
     set (N := (L + hl - 1) / hl).
-    assert (HN : 0 <= N <= 254).
+    assert (HN : 0 <= N <= 255).
     { unfold N. split; [apply Z.div_pos; lia|]. apply Z.lt_succ_r. apply Z.div_lt_upper_bound; lia. }
     fold body.
-    replace (N + 2) with (Z.of_nat (S (Z.to_nat N)) + 1) by lia.
-    rewrite hkdf_loop by lia. rewrite bind_ok. rewrite acc_okm.
+    replace (N + 1) with (Z.of_nat (Z.to_nat N) + 1) by lia.
+    rewrite hkdf_loop by lia. rewrite bind_ok.
     rewrite py_slice_to by lia. reflexivity.
   Qed.
 
-  Lemma HKDF_expand_255 hl L : digest_size alg = Some hl -> 0 < hl -> 254 * hl < L <= 255 * hl ->
+  (* beyond the RFC's range the function refuses *)
+  Lemma HKDF_expand_too_long hl L : digest_size alg = Some hl -> 0 < hl -> 255 * hl < L ->
     HKDF_expand Orc prk info L alg = Err ValueError.
   Proof.
     intros Hd Hhl HL. unfold HKDF_expand, py_digest_size. rewrite Hd, bind_ok.
     unfold divceil, py_divmod. destruct (hl =? 0) eqn:E; [lia|]. rewrite !bind_ok.
     rewrite divceil_pos_val by lia.
-    assert (HN : (L + hl - 1) / hl = 255).
-    { symmetry. apply Z.div_unique with (r := L + hl - 1 - 255 * hl); lia. }
-    rewrite HN. fold body. change (255 + 2) with (Z.of_nat 256 + 1).
-    rewrite hkdf_loop_256. reflexivity.
+    set (N := (L + hl - 1) / hl).
+    assert (HN : 256 <= N).
+    { unfold N. apply Z.div_le_lower_bound; lia. }
+    fold body.
+    rewrite (zrange_split 1 256 (N + 1)) by lia. rewrite (zrange_cons 256) by lia.
+    change 256 with (Z.of_nat 255 + 1) at 1. rewrite hkdf_loop_256. reflexivity.
   Qed.
 End HKDF.
 
-(* the RFC's function, where it is defined, vs the code *)
-Lemma hkdf_expand_partial Orc alg prk info L hl okm :
-  digest_size alg = Some hl -> L <= 254 * hl ->
+Lemma digest_size_pos alg hl : digest_size alg = Some hl -> 0 < hl.
+Proof.
+  intros Hd. unfold digest_size in Hd.
+  repeat match type of Hd with (if ?c then _ else _) = _ => destruct c; [injection Hd as <-; lia|] end. discriminate.
+Qed.
+
+(* the RFC's function, wherever it is defined (0 <= L <= 255*HashLen), is what the code returns *)
+Lemma hkdf_expand_full Orc alg prk info L okm :
   hkdf_expand_rfc Orc alg prk info L = Some okm -> HKDF_expand Orc prk info L alg = Ok okm.
 Proof.
-  intros Hd HL. unfold hkdf_expand_rfc. rewrite Hd.
+  unfold hkdf_expand_rfc. destruct (digest_size alg) as [hl|] eqn:Hd; [|discriminate].
   destruct ((0 <=? L) && (L <=? 255 * hl)) eqn:E; [|discriminate]. intros H. injection H as <-.
-  assert (0 < hl).
-  { unfold digest_size in Hd.
-    repeat match type of Hd with (if ?c then _ else _) = _ => destruct c; [injection Hd as <-; lia|] end. discriminate. }
-  apply HKDF_expand_ok; [exact Hd|assumption|lia].
+  apply HKDF_expand_ok; [exact Hd|apply (digest_size_pos alg); exact Hd|lia].
 Qed.
 
-Lemma hkdf_expand_refuted_all Orc alg prk info L hl :
-  digest_size alg = Some hl -> 254 * hl < L <= 255 * hl ->
-  (exists okm, hkdf_expand_rfc Orc alg prk info L = Some okm) /\ HKDF_expand Orc prk info L alg = Err ValueError.
+Lemma hkdf_expand_beyond Orc alg prk info L hl :
+  digest_size alg = Some hl -> 255 * hl < L ->
+  hkdf_expand_rfc Orc alg prk info L = None /\ HKDF_expand Orc prk info L alg = Err ValueError.
 Proof.
-  intros Hd HL.
-  assert (0 < hl).
-  { unfold digest_size in Hd.
-    repeat match type of Hd with (if ?c then _ else _) = _ => destruct c; [injection Hd as <-; lia|] end. discriminate. }
-  split.
-  - unfold hkdf_expand_rfc. rewrite Hd.
-    destruct ((0 <=? L) && (L <=? 255 * hl)) eqn:E; [eexists; reflexivity|lia].
-  - apply (HKDF_expand_255 Orc alg prk info hl L); assumption.
-Qed.
-
-(* concrete witness: SHA-256 sizes, L = 255*32 = 8160, toy oracle *)
-Lemma hkdf_expand_refuted_witness :
-  exists Orc alg prk info L okm,
-    hkdf_expand_rfc Orc alg prk info L = Some okm /\ HKDF_expand Orc prk info L alg <> Ok okm.
-Proof.
-  destruct (hkdf_expand_refuted_all toy_oracles "sha256" [1;2;3] [4;5] 8160 32 eq_refl ltac:(lia)) as [[okm E1] E2].
-  exists toy_oracles, "sha256"%string, [1;2;3], [4;5], 8160, okm. split; [exact E1|].
-  rewrite E2. discriminate.
+  intros Hd HL. pose proof (digest_size_pos alg hl Hd). split.
+  - unfold hkdf_expand_rfc. rewrite Hd. destruct ((0 <=? L) && (L <=? 255 * hl)) eqn:E; [lia|reflexivity].
+  - apply (HKDF_expand_too_long Orc alg prk info hl L); assumption.
 Qed.
 
 (* ---- P_hash (RFC 5246 5) -------------------------------------------------------- *)
